@@ -36,11 +36,16 @@ CFG = {
                   "the execution layer's verify_payload is an environment answer; the tie model <-> Rust is the differential run.",
     "harness": "c01",
     "replay_by_seed": True,
-    "n": {"quick": 2400, "thorough": 60000},
-    "rule": "simulations of 150 scheduler steps each over committees of 6, 7, 9 (mixed weights) or 11 validators with a random "
-            "Byzantine subset of weight <= f; scheduler step = deliver a random pending packet (15% duplicated, 12% lost, "
-            "partition-filtered) / timer / proposer / Byzantine action (6 kinds) / restart / partition toggle / block sync; each "
-            "real replica step is one op. non-trivial = distinct op whose outcome class differs from the modal class",
+    "n": {"quick": 6000, "thorough": 84000},
+    "rule": "N/2000 simulations (at least 2) of 2000 scheduler steps each over committees of 4 (f=0), 6, 6 with a double weight, 7, 9 "
+            "(mixed weights) or 11 validators with a random Byzantine subset of weight <= f; every third case uses a leader schedule "
+            "other than round-robin over everybody (eligible subset, rotation period 1-3, weighted mode; the real view_leader is "
+            "tabulated for the model). The prefix alternates calm phases (timer 1%, loss 2%, no restarts/partitions) and storms "
+            "(timer 7% incl. double expiry, loss 14%, restarts 3%, partition toggles 3%, Byzantine actions 9% of 7 kinds), 250 steps "
+            "each; a step delivers a pending packet (75% among the 3n most recent, 10% duplicated), or fires a timer / proposer / "
+            "Byzantine action / restart / partition toggle / block sync. Evidence histograms prefix_max_committed_blocks / "
+            "prefix_max_view say how far cases got (a case that never leaves view 0 tests nothing). Each real replica step is one "
+            "op. non-trivial = distinct op whose outcome class differs from the modal class",
     "trusted": ["Layer-P transition system (hand transcription of the protocol's guards)", "symbolic cryptography",
                 "hand-written replica model; harness stores and scheduler"],
     "assumptions": ["weight of Byzantine validators <= f", "signatures unforgeable, hashes collision-free", "fixed committee (one epoch)"],
